@@ -136,6 +136,18 @@ func lateReason(c *l3Case) string {
 }
 
 func judgeBudget(entry string, sp *sysPipe, r qres, edns bool) (verdict string, over bool) {
+	verdict, over = judgeBudget0(entry, sp, r, edns)
+	// every authority of an honest world answers every packet at once: whatever the resolver's shared
+	// circuit breaker holds against one of them after a query was put there by something else than the
+	// authority's behaviour (a tree's own budget or admission refusal, for one). One replay of the case
+	// (l3child.go) rules out an exchange timeout of the loaded box.
+	if verdict == "" && sp.T.Honest && !sp.T.DeadAddrs && r.Booked != "" {
+		verdict = fmt.Sprintf("FAIL sig=%s/failure-booked-against-healthy-authority breaker={%s} over-budget=%v", entry, r.Booked, over)
+	}
+	return verdict, over
+}
+
+func judgeBudget0(entry string, sp *sysPipe, r qres, edns bool) (verdict string, over bool) {
 	caps := sp.Cfg
 	mode := sp.Policy.Mode
 	if r.Snap != nil && r.TrustQs > int(r.Snap.InternalQueries) {
